@@ -17,7 +17,21 @@ def corpus(name):
 
 
 MODEL_OBS = ["bbox", "bbox", "size", "repr", "desc", "len", "isvis"]
-OPAQUE = ["composite", "numpy", "topil", "find", "iterate", "pretty", "layer_composite", "mask_effects"]
+OPAQUE = list(T.OPAQUE)
+DOC_ONLY = ("save",)
+
+
+def opaque_pool(w, k):
+    C, X = w.conts(), w.layers()
+    if k in DOC_ONLY:
+        return w.docs()
+    if k in ("composite", "numpy", "topil"):
+        return w.docs() + X
+    if k in ("find", "iterate"):
+        return C
+    if k in ("mask_effects", "clip_layers"):
+        return X
+    return C + X
 
 
 def observation(w, rng, opaque_ok):
@@ -25,21 +39,17 @@ def observation(w, rng, opaque_ok):
     C, X = w.conts(), w.layers()
     if opaque_ok and rng.random() < 0.4:
         k = rng.choice(OPAQUE)
-        if k in ("composite", "numpy", "topil"):
-            pool = w.docs() + X
-        elif k in ("find", "iterate"):
-            pool = C
-        elif k == "mask_effects":
-            pool = X
-        else:
-            pool = C + X
-        return ("opaque", k, rng.choice(pool))
+        return ("opaque", k, rng.choice(opaque_pool(w, k)))
     k = rng.choice(MODEL_OBS)
     if k in ("desc", "len"):
         return ("obs", k, rng.choice(C))
     if k == "isvis":
         return ("obs", k, rng.choice(X))
     return ("obs", k, rng.choice(C + X))
+
+
+def is_observation(op):
+    return op[0] in ("obs", "opaque")
 
 
 def interleave(recipe, ops, rng, opaque_ok, per_step=2):
@@ -57,44 +67,214 @@ def interleave(recipe, ops, rng, opaque_ok, per_step=2):
     return out
 
 
+def sandwiches(recipe, rng, n_prefix=2):
+    """read-only call between a structural edit and attribute edits: for EVERY kind of read-only call,
+    `structural prefix, [call], attribute edits` - what the call computed or cached must not survive the
+    attribute edits. Yields (history without the call, history with it)."""
+    w = T.build(recipe)
+    prefix = []
+    for _ in range(60):
+        if len(prefix) >= n_prefix:
+            break
+        op = T.random_op(w, rng, p_unguarded=0.0, p_attr=0.0)
+        if op[0] in ("clear", "delslice", "newlayer", "pop", "delitem", "remove", "delete"):
+            continue          # keep the pictures non-empty
+        if op[0] in T.INSERTING and T.already_listed(op, w.listed()):
+            continue          # outside the guard of the theorems (known finding C10/<op>/already-listed)
+        out = T.apply_real(w, op)
+        if not out.startswith("err:"):
+            prefix.append(op)
+    X = [x for x in w.layers() if x in T.attached(w)]
+    if not X:
+        return
+    tails = []
+    for _ in range(2):
+        tail = []
+        for _ in range(rng.randrange(1, 3)):
+            k = rng.choice(["vis", "left", "opacity", "clip", "vis"])
+            if k == "vis":
+                x = rng.choice(X)
+                tail.append(("vis", x, not bool(w.objs[x].visible)))
+            elif k == "left":
+                pl = [x for x in w.plain_leaves() if x in X]
+                if pl:
+                    tail.append((rng.choice(["left", "top"]), rng.choice(pl), rng.choice([0, 3, 5])))
+            elif k == "opacity":
+                tail.append(("opacity", rng.choice(X), rng.choice([0, 120])))
+            else:
+                # the bottom layer of a container has nothing to clip to; elsewhere the layer joins a base
+                g = rng.choice([c for c in w.conts() if c in T.attached(w) and w.objs[c]._layers])
+                kids = [w.idof(l) for l in w.objs[g]._layers]
+                x = kids[0] if rng.random() < 0.6 else rng.choice(kids)
+                tail.append(("clip", x, not bool(w.objs[x].clipping_layer)))
+        if tail:
+            tails.append(tail)
+    d = w.docs()[0]
+    calls = [("opaque", k, d) for k in ("save", "composite", "layer_composite", "topil", "numpy", "find", "pretty")]
+    calls += [("obs", "bbox", d), ("obs", "desc", d)]
+    some = [X[0], X[-1]]
+    calls += [("opaque", k, x) for k in ("clip_layers", "composite", "mask_effects") for x in dict.fromkeys(some)]
+    calls += [("obs", "bbox", g) for g in w.groups()[:2]]
+    for tail in tails:
+        # the call in the middle ...
+        for c in calls:
+            yield prefix + tail, prefix + [c] + tail
+        # ... and, for edits of the clipping flag, read-only calls AFTER the edit (the answers afterwards must
+        # not depend on which of them came first)
+        after = [("opaque", "save", d), ("obs", "bbox", d), ("obs", "desc", d)]
+        after += [("opaque", k, x) for k in ("clip_layers", "mask_effects") for x in dict.fromkeys(some)]
+        for c in after:
+            yield prefix + tail, prefix + tail + [c]
+        yield prefix + tail, prefix + tail + after[1:]
+
+
+def guarded(recipe, ops):
+    """the history up to (excluding) the first inserting operation whose arguments are already listed: beyond it
+    the tree is ill-formed (known finding of C10) and the freshness / purity statements do not apply"""
+    w = T.build(recipe)
+    out = []
+    for op in ops:
+        if op[0] in T.INSERTING and T.already_listed(op, w.listed()):
+            break
+        T.apply_real(w, op)
+        out.append(op)
+    return out
+
+
+def _img(r):
+    return None if r is None else (r.mode, r.size, T._digest(r.tobytes()))
+
+
 def battery(w):
-    """the answers a user can get afterwards + the bytes save() writes"""
+    """the answers a user can get afterwards + the bytes save() writes. The rendering comes first (nothing
+    but the history precedes it), is asked again at the end (the same read-only call twice gives the same
+    answer) and the bytes are written twice."""
     ans = {}
+
+    def ask(key, f):
+        try:
+            ans[key] = f()
+        except RecursionError:
+            ans[key] = "err:RecursionError"
+        except Exception as e:  # noqa
+            ans[key] = "err:" + err_class(e)
+
+    docs = w.docs()
+    for d in docs:
+        ask((d, "composite"), lambda: _img(w.objs[d].composite(force=True)))
     for i in w.ids():
         o = w.objs[i]
-        for name, f in (("bbox", lambda: tuple(o.bbox)), ("size", lambda: tuple(o.size)),
-                        ("visible", lambda: bool(o.is_visible())),
-                        ("desc", lambda: [w.idof(x) for x in o.descendants()] if hasattr(o, "descendants") else None)):
-            try:
-                ans[(i, name)] = f()
-            except RecursionError:
-                ans[(i, name)] = "err:RecursionError"
-            except Exception as e:  # noqa
-                ans[(i, name)] = "err:" + err_class(e)
-    for d in w.docs():
+        ask((i, "bbox"), lambda: tuple(o.bbox))
+        ask((i, "size"), lambda: tuple(o.size))
+        ask((i, "visible"), lambda: bool(o.is_visible()))
+        ask((i, "desc"), lambda: [w.idof(x) for x in o.descendants()] if hasattr(o, "descendants") else None)
+        if isinstance(o, T.Layer):
+            ask((i, "clip_layers"), lambda: ([w.idof(x) for x in o.clip_layers], bool(o.clipping_layer)))
+    for d in docs:
         psd = w.objs[d]
-        try:
-            im = psd.composite(force=True)
-            ans[(d, "composite")] = None if im is None else (im.mode, im.size, im.tobytes())
-        except Exception as e:  # noqa
-            ans[(d, "composite")] = "err:" + err_class(e)
-        buf = io.BytesIO()
-        try:
+        ask((d, "composite-again"), lambda: _img(psd.composite(force=True)))
+        ask((d, "composite-default"), lambda: _img(psd.composite()))
+
+        def saved():
+            buf = io.BytesIO()
             psd.save(buf)
-            ans[(d, "saved")] = buf.getvalue()
-        except Exception as e:  # noqa
-            ans[(d, "saved")] = "err:" + err_class(e)
+            return buf.getvalue()
+        ask((d, "saved"), saved)
+        ask((d, "saved-again"), saved)
+        ask((d, "topil"), lambda: _img(psd.topil()))
     return ans
 
 
-def purity_case(ctx, recipe, ops, rng, opaque_ok):
-    """history with and without observations: later answers and saved bytes must be the same"""
-    a = T.run_history(recipe, ops, check_inv=False, check_shadow=False, stop_on_problem=False)
-    obs_ops = interleave(recipe, ops, rng, opaque_ok)
-    b = T.run_history(recipe, obs_ops, check_inv=False, check_shadow=False, stop_on_problem=False)
+TWICE = (("composite", "composite-again"), ("saved", "saved-again"))
+DOC_PICTURE = ("composite", "composite-again", "composite-default", "saved", "saved-again", "topil")
+
+
+def _is_err(v):
+    return isinstance(v, str) and v.startswith("err:")
+
+
+def stale_detached(w, i):
+    """a group outside every document that has, or lies below a group that has, a parent pointer naming a container
+    which does not list it (is_visible() follows that pointer, the invalidation cannot come back along it)"""
+    o = w.objs[i]
+    if not isinstance(o, T.Group) or i in T.attached(w):
+        return False
+    n = 0
+    while isinstance(o, T.Layer) and n < 200:
+        p = getattr(o, "_parent", None)
+        if p is None:
+            return False
+        if not any(x is o for x in getattr(p, "_layers", [])):
+            return True
+        o, n = p, n + 1
+    return False
+
+
+def emptied(w, d):
+    """a document without layers (it is rendered from its stored merged image)"""
+    o = w.objs[d] if d < len(w.objs) else None
+    return isinstance(o, T.PSDImage) and len(o._layers) == 0
+
+
+
+def purity_problems(recipe, plain, observed):
+    """run the history without and with read-only calls; returns [(signature, what)]"""
+    kw = dict(check_inv=False, check_shadow=False, check_fresh=False, stop_on_problem=False)
+    a = T.run_history(recipe, plain, **kw)
+    b = T.run_history(recipe, observed, **kw)
     ba, bb = battery(a.world), battery(b.world)
-    diffs = [k for k in ba if ba[k] != bb.get(k)]
-    return a, b, obs_ops, diffs, ba, bb
+    out = []
+    for tag, B in (("without", ba), ("with", bb)):
+        for first, second in TWICE:
+            for (i, name), v in B.items():
+                if name == first and B.get((i, second)) != v:
+                    out.append(("C14/impure/%s-twice-differs" % first,
+                                "%s of object %d asked twice in a row (history %s read-only calls) answers %r, then %r"
+                                % (first, i, tag, _short(v), _short(B.get((i, second))))))
+    for k in ba:
+        if ba[k] != bb.get(k):
+            i, name = k
+            if name in ("topil", "composite-default") and _is_err(ba.get((i, "saved"))) and _is_err(bb.get((i, "saved"))):
+                continue      # the stored image is compared after the battery's save(): here that save() raises
+            sig = "C14/impure/%s" % name.replace("-again", "")
+            if name in ("bbox", "size") and stale_detached(b.world, i):
+                sig = "C14/bbox-stale/detached-node-with-stale-parent"
+            elif name in DOC_PICTURE and emptied(a.world, i) and emptied(b.world, i) and any(
+                    o[0] == "opaque" and o[1] == "save" and o[2] == i for o in observed):
+                sig = "C14/impure/emptied-document-shows-stored-merged-image"
+            out.append((sig, "%s of object %d differs when read-only calls are interleaved: %r vs %r"
+                        % (name, i, _short(ba[k]), _short(bb.get(k)))))
+    for p in a.problems + b.problems:       # e.g. the same opaque call twice in a row inside the history
+        if p[0] == "C14" and "/impure/" in p[1]:
+            out.append((p[1], p[2]))
+    return out
+
+
+def shrink_purity(recipe, observed, sig):
+    """ddmin on the history WITH read-only calls (the plain history is what remains without them)"""
+    def test(sub):
+        plain = [o for o in sub if not is_observation(o)]
+        if len(plain) == len(sub) or len(guarded(recipe, plain)) != len(plain):
+            return False
+        return any(s == sig for s, _ in purity_problems(recipe, plain, list(sub)))
+
+    def test_plain(sub):
+        plain = [o for o in sub if not is_observation(o)]
+        if len(guarded(recipe, plain)) != len(plain):
+            return False
+        return any(s == sig for s, _ in purity_problems(recipe, list(sub), list(sub)))
+    try:
+        if sig.endswith("-twice-differs"):
+            # a repeated call that answers differently needs no other read-only call: try the plain history
+            plain = [o for o in observed if not is_observation(o)]
+            for cand in (plain, list(observed)):
+                if cand and test_plain(cand):
+                    return core.ddmin(cand, test_plain)
+        return core.ddmin(list(observed), test)
+    except core.Infra:
+        raise
+    except Exception:  # noqa
+        return list(observed)
 
 
 def run(ctx: core.Run):
@@ -137,37 +317,70 @@ def run(ctx: core.Run):
     T.compare_with_model(ctx, traces, what="C14")
     T.coverage(ctx, traces)
     T.report(ctx, traces, props=("C14",))
-    # 4. purity: answers and saved bytes with and without observations
-    n_pure = 60 if ctx.quick else 500
+    # 4. purity: answers and saved bytes with and without read-only calls
+    #    (a) random histories with random read-only calls interleaved; (b) sandwiches: every kind of read-only
+    #    call between a structural edit and attribute edits, and after them
+    n_pure = 40 if ctx.quick else 400
+    n_sand = 8 if ctx.quick else 60
     pure_recipes = [("small", "L", 8), ("flat", "RGB", 8), ("nest", "RGB", 8), ("nest", "L", 8), ("two", "RGB", 8, "L"),
                     ("fixture", "clipping-mask.psd"), ("fixture", "group.psd"), ("fixture", "16bit5x5.psd"),
-                    ("nest", "CMYK", 8), ("nest", "RGB", 16)]
-    impure = 0
+                    ("nest", "CMYK", 8), ("nest", "RGB", 16), ("board", "RGB", 8), ("dup", "RGB", 8)]
+    sand_recipes = [("nest", "RGB", 8), ("flat", "RGB", 8), ("board", "RGB", 8), ("nest", "L", 8), ("small", "L", 8),
+                    ("nest", "CMYK", 8), ("nest", "RGB", 16), ("two", "RGB", 8, "L")]
+    pairs = []
+    cp = core.VERIF / "harness" / "corpus" / "C14.json"
+    for c in (json.loads(cp.read_text()) if cp.exists() else []):
+        if "with_observations" in c:
+            pairs.append((tuple(c["recipe"]), T.ops_from_json(c["ops"]), T.ops_from_json(c["with_observations"]), "corpus"))
     for k in range(n_pure):
         recipe = pure_recipes[k % len(pure_recipes)]
-        ops = T.random_walk(recipe, rng, rng.randrange(2, (10 if ctx.quick else 30)), p_unguarded=0.0, p_attr=0.3)
-        a, b, obs_ops, diffs, ba, bb = purity_case(ctx, recipe, ops, rng, opaque_ok=True)
-        ctx.count(("pure", recipe, tuple(ops)), nontrivial=True)
-        ctx.hist("purity", "same" if not diffs else "differs")
-        if diffs:
-            impure += 1
-            i, name = diffs[0]
-            what = "%s of object %d differs when read-only calls are interleaved: %r vs %r" % (
-                name, i, _short(ba[(i, name)]), _short(bb.get((i, name))))
-            ctx.fail("C14/impure/%s" % name, what,
-                     {"recipe": list(recipe), "ops": T.ops_to_json(ops), "with_observations": T.ops_to_json(obs_ops)},
-                     observed=what, expected="the same answers and the same saved bytes")
-    ctx.extra["purity_cases"] = n_pure
+        ops = guarded(recipe, T.random_walk(recipe, rng, rng.randrange(2, (10 if ctx.quick else 30)),
+                                            p_unguarded=0.0, p_attr=0.35))
+        pairs.append((recipe, ops, interleave(recipe, ops, rng, True), "random"))
+    for k in range(n_sand):
+        recipe = sand_recipes[k % len(sand_recipes)]
+        for plain, observed in sandwiches(recipe, rng):
+            pairs.append((recipe, plain, observed, "sandwich"))
+    seen = {}
+    for recipe, plain, observed, how in pairs:
+        probs = purity_problems(recipe, plain, observed)
+        ctx.count(("pure", recipe, tuple(observed)), nontrivial=True)
+        ctx.hist("purity", "%s %s" % (how, "same" if not probs else "differs"))
+        for c in observed:
+            if is_observation(c):
+                ctx.hist("purity_calls", c[1])
+        for sig, what in probs:
+            if sig in seen:
+                seen[sig]["count"] += 1
+                continue
+            small = shrink_purity(recipe, observed, sig)
+            plain_small = [o for o in small if not is_observation(o)]
+            again = [w_ for s_, w_ in purity_problems(recipe, plain_small, small) if s_ == sig]
+            if not again:
+                small, plain_small, again = list(observed), list(plain), [what]
+            seen[sig] = {"count": 1}
+            ctx.fail(sig, again[0],
+                     {"recipe": list(recipe), "ops": T.ops_to_json(plain_small), "with_observations": T.ops_to_json(small)},
+                     observed=again[0], expected="the same answers and the same saved bytes with and without the read-only "
+                     "calls; the same answer when a read-only call is repeated")
+    for sig, dct in seen.items():
+        for f in ctx.failures:
+            if f["signature"] == sig:
+                f["count"] = dct["count"]
+    ctx.extra["purity_cases"] = len(pairs)
     for t in traces[:n_corpus] + traces[-2:]:
         ctx.sample({"recipe": list(t.world.recipe), "ops": [T.op_str(o) for o in t.ops[:10]], "outs": t.outs[:10]})
     ctx.rule = ("a case is one (initial tree, history of edits and read-only calls); non-trivial = at least one operation. "
                 "After EVERY step every cached box of the object graph is compared with a fresh Group.extract_bbox and the "
                 "full dump (caches included) with the model. Exhaustive: all histories of <= 2 candidate operations "
                 "(structure edits, visible, left) with bbox / repr reads around each; random: %d walks of <= %d edits with "
-                "read-only calls (bbox, size, repr, descendants, len, is_visible, composite, numpy, topil, find, iteration, "
-                "mask / effects) interleaved; purity: %d histories run with and without the read-only calls, later answers "
-                "(bbox, size, is_visible, descendants, composite) and the bytes written by save() compared."
-                % (n_walks, max_len, n_pure))
+                "read-only calls (bbox, size, repr, descendants, len, is_visible, composite, numpy, topil, save to a throw-away "
+                "buffer, find, iteration, clip_layers, mask / effects; each opaque call made twice in a row and the two "
+                "answers compared) interleaved; purity: %d histories (random interleavings + every kind of read-only call "
+                "between a structural edit and attribute edits - visible, offset, opacity, clipping flag - and after them) "
+                "run with and without the read-only calls, later answers (composite first and again at the end, bbox, size, "
+                "is_visible, descendants, clip_layers, default composite, topil) and the bytes written by save() (twice) "
+                "compared." % (n_walks, max_len, len(pairs)))
     ctx.notes += NOTES
     if ctx.tier == "thorough":
         ctx.recheck(["PsdVerif.Props.C14"])
@@ -183,12 +396,16 @@ NOTES = [
     "stated in DESIGN, not proved: 'saved bytes unchanged by observations' (observable of DESIGN includes the bytes "
     "save() writes; proved: nothing but caches changes, and caches stay fresh; the bytes are compared by the harness); "
     "lazily created mask / vector mask / origination / effects views and ShapeLayer._bbox are not modelled",
+    "save() is documented to refresh the stored merged image when the structure was edited; topil() (the stored image) and "
+    "the default composite() are therefore compared after the battery's own save(), the forced rendering before it. A "
+    "document that was EMPTIED is rendered from that stored image, so there an earlier save() shows through (known finding "
+    "C14/impure/emptied-document-shows-stored-merged-image)",
 ]
 
 
 def _short(v):
     if isinstance(v, (bytes, bytearray)):
-        return "<%d bytes>" % len(v)
+        return "<%s bytes>" % T._digest(v)
     if isinstance(v, tuple) and v and isinstance(v[-1], (bytes, bytearray)):
         return v[:-1] + ("<%d bytes>" % len(v[-1]),)
     return v
@@ -199,11 +416,6 @@ def replay(ctx, data):
     inp = data.get("input") or {}
     if "with_observations" in inp:
         recipe = tuple(inp["recipe"])
-        a = T.run_history(recipe, T.ops_from_json(inp["ops"]), check_inv=False, check_shadow=False, stop_on_problem=False)
-        b = T.run_history(recipe, T.ops_from_json(inp["with_observations"]), check_inv=False, check_shadow=False,
-                          stop_on_problem=False)
-        ba, bb = battery(a.world), battery(b.world)
-        for k in ba:
-            if ba[k] != bb.get(k):
-                print("  differs:", k, _short(ba[k]), "vs", _short(bb.get(k)))
+        for sig, what in purity_problems(recipe, T.ops_from_json(inp["ops"]), T.ops_from_json(inp["with_observations"])):
+            print("  ", sig, ":", what[:300])
     return 0
